@@ -16,6 +16,7 @@ the abstract registry `w` (a plain list of clients): `Inv`, same clients, same
 DHCP table.  `track`/`run` execute a history from a state.
 -/
 import AGH.Lemmas.ClientsHistory
+import AGH.Lemmas.ClientsSetIDs
 namespace AGH.C04
 open AGH AGH.Bytes
 open AGH.C03 (IP Prefix inCIDR)
@@ -294,6 +295,64 @@ theorem C04_sortedmap_sound (ops : List Op) :
   intro m
   have h := (run_inv (s := Storage.empty) Inv.empty ops).sm
   exact ⟨h.sorted, h.sorted.nodup, h.dom⟩
+
+/-! ### identifier strings -/
+
+/-- `SetIDs` accepts a list of strings exactly when every one of them is an
+address, a CIDR, a MAC or a valid ClientID label, and then the client is known
+by exactly the identifiers the strings stand for (tried in that order; the
+ClientID lower-cased) in addition to those it had; name and UID are untouched. -/
+theorem C04_setIDs_classifies (c : Client) (ids : List IDString) :
+    ((∃ c', setIDs c ids = .ok c') ↔ ∀ id ∈ ids, id.ident.isSome = true) ∧
+    ∀ c', setIDs c ids = .ok c' →
+      c'.name = c.name ∧ c'.uid = c.uid ∧
+      ∀ x, x ∈ c'.idents ↔ (x ∈ c.idents ∨ ∃ id ∈ ids, id.ident = some x) := by
+  constructor
+  · constructor
+    · rintro ⟨c', h⟩
+      unfold setIDs at h
+      cases hl : setIDsLoop c ids with
+      | error e => rw [hl] at h; cases h
+      | ok c1 => exact (setIDsLoop_spec hl).2.2.1
+    · intro hall
+      unfold setIDs
+      cases hl : setIDsLoop c ids with
+      | ok c1 => exact ⟨_, rfl⟩
+      | error e =>
+        obtain ⟨id, hid, hn⟩ := setIDsLoop_error hl
+        have := hall id hid
+        rw [hn] at this; cases this
+  · intro c' h
+    unfold setIDs at h
+    cases hl : setIDsLoop c ids with
+    | error e => rw [hl] at h; cases h
+    | ok c1 =>
+      rw [hl] at h
+      simp only [Except.ok.injEq] at h
+      subst h
+      obtain ⟨hn, hu, _, hm⟩ := setIDsLoop_spec hl
+      refine ⟨hn, hu, ?_⟩
+      intro x
+      rw [idents_sorted c1 x]
+      exact hm x
+
+/-- Reading note: an 8-byte hardware address written with colons is an IPv6
+address for `SetIDs` (the address parser is asked first); written with dashes
+it is a MAC. -/
+example :
+    (IDString.ident ⟨[48], some (.v6 0x0011002200330044005500660077 []), none, some [0, 17, 34, 51, 68, 85, 102, 119]⟩)
+      = some (.ip (.v6 0x0011002200330044005500660077 [])) ∧
+    (IDString.ident ⟨[48], none, none, some [0, 17, 34, 51, 68, 85, 102, 119]⟩)
+      = some (.mac [0, 17, 34, 51, 68, 85, 102, 119]) := by decide
+
+/-! ### at most one client -/
+
+/-- After every history an identifier (of any kind) or a name belongs to at
+most one stored client, so a request is attributed to at most one. -/
+theorem C04_at_most_one_owner (ops : List Op) (a b : Client) (k : Ident)
+    (ha : a ∈ (run Storage.empty ops).index.clients) (hb : b ∈ (run Storage.empty ops).index.clients)
+    (hka : k ∈ a.idents) (hkb : k ∈ b.idents) : a = b :=
+  owner_unique (run_inv (s := Storage.empty) Inv.empty ops).pairwise_disjoint ha hb hka hkb
 
 /-! ### non-vacuity -/
 
